@@ -309,7 +309,11 @@ fn declared_budget(file: &[u8]) -> (u64, u64) {
         walk_raw(file, h, &file[off as usize..end as usize], depth, runs, visits);
     }
     fn walk_raw(file: &[u8], h: &spec::SHeader, raw: &[u8], depth: u32, runs: &mut u64, visits: &mut u64) {
-        let Ok(plain) = spec::codec_decompress(h.icomp, raw) else { return };
+        // lenient: the library decodes lazily, a stream damaged behind the bytes it needs still yields a directory
+        let plain = match spec::codec_decompress(h.icomp, raw) {
+            Ok(p) => p,
+            Err(_) => spec::codec_decompress_lenient(h.icomp, raw),
+        };
         // tolerant decode: count, ids, runs (enough to know the expansion)
         let Ok(es) = spec::decode_dir(&plain) else {
             // partial decode is still dangerous: be conservative and look at the run column alone
@@ -370,7 +374,12 @@ fn declared_budget(file: &[u8]) -> (u64, u64) {
 }
 const BUDGET: u64 = 300_000;
 fn chk_nocrash_arch(b: &[u8]) -> Result<(), String> {
+    let t0 = std::time::Instant::now();
+    let timing = std::env::var("PM_TIMING").is_ok();
     let (runs, _) = declared_budget(b);
+    if timing {
+        eprintln!("budget {runs} {:?}", t0.elapsed());
+    }
     if runs > BUDGET {
         return Ok(()); // outside the claim: expansion proportional to declared run lengths
     }
@@ -397,8 +406,14 @@ fn chk_nocrash_arch(b: &[u8]) -> Result<(), String> {
                 return Err("get_tile panicked".into());
             }
         }
+        if timing {
+            eprintln!("opened+lookups asy={asy} ids={} {:?}", ids.len(), t0.elapsed());
+        }
         // re-write the opened archive
         let (r, _) = write_to(st, Core::new(Vec::new(), 0));
+        if timing {
+            eprintln!("rewritten {:?}", t0.elapsed());
+        }
         if r.is_err() {
             return Err(format!("to_writer of the opened archive panicked (async={asy})"));
         }
